@@ -8,6 +8,9 @@
 //   4 returned, but the owned and the borrowed form disagree
 //   5 the by-reference form panicked but the consuming (owned) form of the same operation returned a value
 //   6 returned, but the write landed in (or also changed) the storage of another element
+//   8 (own / own2 / self kinds) two forms that C20 does not state to be bit-identical (assign, scalar-left, method, same object on both
+//     sides with inexact data) differ beyond rounding: an entry off by more than 1e-12 * the largest entry, or another shape
+//   9 (own / own2 / self kinds) one form of the operation panicked where the other returned a value
 // guard.<entry>@zero ...: the same calls with the PAYLOAD (value / vector written, second operand, right-hand side) all zeros.
 // guard.h_<entry> ...: the receiver is produced by a HISTORY (resize / transpose_in_place / delete_row) before the checked call.
 // guard.own2_<type> n..: owned vs borrowed forms on operands whose products and sums are INEXACT in f64.
@@ -348,7 +351,7 @@ fn own_check(ty: &str, n: usize) -> i128 {
             for s in scalars {
                 if bits_m(&(&a * s)) != bits_m(&(a.clone() * s)) { return 4; }
                 if bits_m(&(&a / s)) != bits_m(&(a.clone() / s)) { return 4; }
-                if bits_m(&(s * a.clone())) != bits_m(&(&a * s)) { return 4; }
+                { let c = forms(|| s * a.clone(), || &a * s, bits_m, 2, false); if c != 0 { return c; } }      // scalar-left form: within rounding
             }
             if bits_m(&(-&a)) != bits_m(&(-(a.clone()))) { return 4; }
             if bits_m(&a) != sa { return 3; } 0 }
@@ -394,73 +397,106 @@ fn bandx(n: usize, m1: usize, m2: usize, o: usize) -> Banded<f64> {
 fn trix(n: usize, o: usize) -> Tridiagonal<f64> { Tridiagonal::with_vectors(vecx(n - 1, o), vecx(n, o + 7), vecx(n - 1, o + 13)) }
 fn polyx(len: usize, o: usize) -> Polynomial<f64> { Polynomial::new((0..len).map(|i| xval(i + o)).collect()) }
 
+// two forms of one operation, each under catch_unwind.  Panic-vs-value must agree exactly (code 9 otherwise).  `exact`: the values must be
+// bit-identical (code 4) -- demanded of op(a.clone(), b.clone()) against op(&a, &b) ("their consuming counterparts return identical
+// results") and of every comparison on the dyadic builders, where every sum and product is exact.  Not `exact` (assign forms, scalar-left
+// forms, methods, the same object on both sides -- C20 states nothing bitwise about those): same shape, and every entry within
+// 1e-12 * (largest entry of either result) of its counterpart (code 8 otherwise; a NaN on one side only is code 8).
+fn close(x: &[u64], y: &[u64], head: usize) -> bool {
+    if x.len() != y.len() { return false; }
+    let h = head.min(x.len());
+    if x[..h] != y[..h] { return false; }
+    let mut scale = 0.0f64;
+    for w in x[h..].iter().chain(y[h..].iter()) { let v = f64::from_bits(*w).abs(); if v.is_finite() && v > scale { scale = v; } }
+    for (p, q) in x[h..].iter().zip(y[h..].iter()) {
+        if p == q { continue; }
+        let d = (f64::from_bits(*p) - f64::from_bits(*q)).abs();
+        if !(d <= 1e-12 * scale) { return false; }
+    }
+    true
+}
+fn forms<R>(f1: impl FnOnce() -> R, f2: impl FnOnce() -> R, bits: impl Fn(&R) -> Vec<u64>, head: usize, exact: bool) -> i128 {
+    let r1 = catch_unwind(AssertUnwindSafe(f1)); let r2 = catch_unwind(AssertUnwindSafe(f2));
+    match (r1, r2) {
+        (Ok(x), Ok(y)) => { let (bx, by) = (bits(&x), bits(&y)); if bx == by { 0 } else if exact { 4 } else if close(&bx, &by, head) { 0 } else { 8 } }
+        (Err(_), Err(_)) => 0,
+        _ => 9,
+    }
+}
+macro_rules! chk { ($e:expr) => { let c: i128 = $e; if c != 0 { return c; } } }
+const HV: usize = 0; const HM: usize = 2; const HB: usize = 5; const HT: usize = 1; const HP: usize = 0;
+
 fn own2_check(ty: &str, n: usize) -> i128 {
     let scalars = [3.0f64, 0.1, -7.0, 1.0 / 3.0];
     match ty {
         "matrix" => { let a = matx(n, n + 1, 0); let c = matx(n, n + 1, 5); let b = matx(n + 1, n + 2, 2); let v = vecx(n + 1, 1);
             let (sa, sc, sb, sv) = (bits_m(&a), bits_m(&c), bits_m(&b), bits_v(&v));
-            if bits_m(&(&a + &c)) != bits_m(&(a.clone() + c.clone())) { return 4; }
-            if bits_m(&(&a - &c)) != bits_m(&(a.clone() - c.clone())) { return 4; }
-            if bits_m(&(&a * &b)) != bits_m(&(a.clone() * b.clone())) { return 4; }
-            if bits_v(&a.multiply(&v)) != bits_v(&(&a * &v)) { return 4; }
-            if bits_v(&a.multiply(&v)) != bits_v(&(a.clone() * v.clone())) { return 4; }
-            let mut x = a.clone(); x += &c; let mut y = a.clone(); y += c.clone();
-            if bits_m(&x) != bits_m(&y) || bits_m(&x) != bits_m(&(&a + &c)) { return 4; }
-            let mut x = a.clone(); x -= &c; let mut y = a.clone(); y -= c.clone();
-            if bits_m(&x) != bits_m(&y) || bits_m(&x) != bits_m(&(&a - &c)) { return 4; }
+            // consuming against by-reference: identical
+            chk!(forms(|| &a + &c, || a.clone() + c.clone(), bits_m, HM, true));
+            chk!(forms(|| &a - &c, || a.clone() - c.clone(), bits_m, HM, true));
+            chk!(forms(|| &a * &b, || a.clone() * b.clone(), bits_m, HM, true));
+            chk!(forms(|| &a * &v, || a.clone() * v.clone(), bits_v, HV, true));
+            chk!(forms(|| { let mut x = a.clone(); x += &c; x }, || { let mut y = a.clone(); y += c.clone(); y }, bits_m, HM, true));
+            chk!(forms(|| { let mut x = a.clone(); x -= &c; x }, || { let mut y = a.clone(); y -= c.clone(); y }, bits_m, HM, true));
+            // method / assign forms against the binary form: same outcome class, values within rounding
+            chk!(forms(|| a.multiply(&v), || &a * &v, bits_v, HV, false));
+            chk!(forms(|| { let mut x = a.clone(); x += &c; x }, || &a + &c, bits_m, HM, false));
+            chk!(forms(|| { let mut x = a.clone(); x -= &c; x }, || &a - &c, bits_m, HM, false));
             for s in scalars {
-                if bits_m(&(&a * s)) != bits_m(&(a.clone() * s)) { return 4; }
-                if bits_m(&(&a / s)) != bits_m(&(a.clone() / s)) { return 4; }
-                if bits_m(&(s * a.clone())) != bits_m(&(&a * s)) { return 4; }
-                let mut x = a.clone(); x *= s; if bits_m(&x) != bits_m(&(&a * s)) { return 4; }
-                let mut x = a.clone(); x /= s; if bits_m(&x) != bits_m(&(&a / s)) { return 4; }
+                chk!(forms(|| &a * s, || a.clone() * s, bits_m, HM, true));
+                chk!(forms(|| &a / s, || a.clone() / s, bits_m, HM, true));
+                chk!(forms(|| s * a.clone(), || &a * s, bits_m, HM, false));
+                chk!(forms(|| { let mut x = a.clone(); x *= s; x }, || &a * s, bits_m, HM, false));
+                chk!(forms(|| { let mut x = a.clone(); x /= s; x }, || &a / s, bits_m, HM, false));
             }
             if bits_m(&a) != sa || bits_m(&c) != sc || bits_m(&b) != sb || bits_v(&v) != sv { return 3; } 0 }
         "banded" => { let (m1, m2) = (1.min(n), 2.min(n)); let a = bandx(n + 1, m1, m2, 0); let c = bandx(n + 1, m1, m2, 4); let v = vecx(n + 1, 2);
             let (sa, sc, sv) = (bits_b(&a), bits_b(&c), bits_v(&v));
-            if bits_b(&(&a + &c)) != bits_b(&(a.clone() + c.clone())) { return 4; }
-            if bits_b(&(&a - &c)) != bits_b(&(a.clone() - c.clone())) { return 4; }
-            if bits_v(&(&a * &v)) != bits_v(&(a.clone() * v.clone())) { return 4; }
-            let mut x = a.clone(); x += &c; let mut y = a.clone(); y += c.clone();
-            if bits_b(&x) != bits_b(&y) || bits_b(&x) != bits_b(&(&a + &c)) { return 4; }
-            let mut x = a.clone(); x -= &c; let mut y = a.clone(); y -= c.clone();
-            if bits_b(&x) != bits_b(&y) || bits_b(&x) != bits_b(&(&a - &c)) { return 4; }
+            chk!(forms(|| &a + &c, || a.clone() + c.clone(), bits_b, HB, true));
+            chk!(forms(|| &a - &c, || a.clone() - c.clone(), bits_b, HB, true));
+            chk!(forms(|| &a * &v, || a.clone() * v.clone(), bits_v, HV, true));
+            chk!(forms(|| { let mut x = a.clone(); x += &c; x }, || { let mut y = a.clone(); y += c.clone(); y }, bits_b, HB, true));
+            chk!(forms(|| { let mut x = a.clone(); x -= &c; x }, || { let mut y = a.clone(); y -= c.clone(); y }, bits_b, HB, true));
+            chk!(forms(|| { let mut x = a.clone(); x += &c; x }, || &a + &c, bits_b, HB, false));
+            chk!(forms(|| { let mut x = a.clone(); x -= &c; x }, || &a - &c, bits_b, HB, false));
             for s in scalars {
-                if bits_b(&(&a * s)) != bits_b(&(a.clone() * s)) { return 4; }
-                if bits_b(&(&a / s)) != bits_b(&(a.clone() / s)) { return 4; }
-                let mut x = a.clone(); x *= s; if bits_b(&x) != bits_b(&(&a * s)) { return 4; }
-                let mut x = a.clone(); x /= s; if bits_b(&x) != bits_b(&(&a / s)) { return 4; }
+                chk!(forms(|| &a * s, || a.clone() * s, bits_b, HB, true));
+                chk!(forms(|| &a / s, || a.clone() / s, bits_b, HB, true));
+                chk!(forms(|| { let mut x = a.clone(); x *= s; x }, || &a * s, bits_b, HB, false));
+                chk!(forms(|| { let mut x = a.clone(); x /= s; x }, || &a / s, bits_b, HB, false));
             }
             if bits_b(&a) != sa || bits_b(&c) != sc || bits_v(&v) != sv { return 3; } 0 }
         "tridiagonal" => { let a = trix(n + 1, 0); let v = vecx(n + 1, 3); let (sa, sv) = (bits_t(&a), bits_v(&v));
-            if bits_v(&(&a * &v)) != bits_v(&(a.clone() * v.clone())) { return 4; }
+            chk!(forms(|| &a * &v, || a.clone() * v.clone(), bits_v, HV, true));
             for s in scalars {
-                if bits_t(&(s * a.clone())) != bits_t(&(a.clone() * s)) { return 4; }
-                let mut x = a.clone(); x *= s; if bits_t(&x) != bits_t(&(a.clone() * s)) { return 4; }
-                let mut x = a.clone(); x /= s; if bits_t(&x) != bits_t(&(a.clone() / s)) { return 4; }
+                chk!(forms(|| s * a.clone(), || a.clone() * s, bits_t, HT, false));
+                chk!(forms(|| { let mut x = a.clone(); x *= s; x }, || a.clone() * s, bits_t, HT, false));
+                chk!(forms(|| { let mut x = a.clone(); x /= s; x }, || a.clone() / s, bits_t, HT, false));
             }
             if bits_t(&a) != sa || bits_v(&v) != sv { return 3; } 0 }
-        "polynomial" => { let p = polyx(n + 1, 0); let q = polyx(n / 2 + 2, 5); let (sp, sq) = (bits_p(&p), bits_p(&q));
-            if bits_p(&(&p + &q)) != bits_p(&(p.clone() + q.clone())) { return 4; }
-            if bits_p(&(&q + &p)) != bits_p(&(q.clone() + p.clone())) { return 4; }
-            if bits_p(&(&p - &q)) != bits_p(&(p.clone() - q.clone())) { return 4; }
-            if bits_p(&(&q - &p)) != bits_p(&(q.clone() - p.clone())) { return 4; }
-            if bits_p(&(&p * &q)) != bits_p(&(p.clone() * q.clone())) { return 4; }
-            if bits_p(&(&q * &p)) != bits_p(&(q.clone() * p.clone())) { return 4; }
-            if bits_p(&(&p * &p)) != bits_p(&(p.clone() * p.clone())) { return 4; }
-            for s in scalars { if bits_p(&(&p * s)) != bits_p(&(p.clone() * s)) { return 4; } }
-            if bits_p(&p) != sp || bits_p(&q) != sq { return 3; } 0 }
+        "polynomial" => { let p = polyx(n + 1, 0); let q = polyx(n / 2 + 2, 5); let p2 = p.clone(); let (sp, sq) = (bits_p(&p), bits_p(&q));
+            chk!(forms(|| &p + &q, || p.clone() + q.clone(), bits_p, HP, true));
+            chk!(forms(|| &q + &p, || q.clone() + p.clone(), bits_p, HP, true));
+            chk!(forms(|| &p - &q, || p.clone() - q.clone(), bits_p, HP, true));
+            chk!(forms(|| &q - &p, || q.clone() - p.clone(), bits_p, HP, true));
+            chk!(forms(|| &p * &q, || p.clone() * q.clone(), bits_p, HP, true));
+            chk!(forms(|| &q * &p, || q.clone() * p.clone(), bits_p, HP, true));
+            chk!(forms(|| &p * &p2, || p.clone() * p2.clone(), bits_p, HP, true));
+            // the same object on both sides (a squaring path may round differently): within rounding
+            chk!(forms(|| &p * &p, || p.clone() * p.clone(), bits_p, HP, false));
+            for s in scalars { chk!(forms(|| &p * s, || p.clone() * s, bits_p, HP, true)); }
+            if bits_p(&p) != sp || bits_p(&q) != sq || bits_p(&p2) != sp { return 3; } 0 }
         "vector" => { let a = vecx(n, 0); let b = vecx(n, 4); let (sa, sb) = (bits_v(&a), bits_v(&b));
-            if bits_v(&(&a + &b)) != bits_v(&(a.clone() + b.clone())) { return 4; }
-            if bits_v(&(&a - &b)) != bits_v(&(a.clone() - b.clone())) { return 4; }
-            if bits_v(&(&a + &b)) != bits_v(&(a.clone() + &b)) { return 4; }
-            if bits_v(&(&a - &b)) != bits_v(&(a.clone() - &b)) { return 4; }
-            let mut x = a.clone(); x += b.clone(); if bits_v(&x) != bits_v(&(&a + &b)) { return 4; }
-            let mut x = a.clone(); x -= b.clone(); if bits_v(&x) != bits_v(&(&a - &b)) { return 4; }
+            chk!(forms(|| &a + &b, || a.clone() + b.clone(), bits_v, HV, true));
+            chk!(forms(|| &a - &b, || a.clone() - b.clone(), bits_v, HV, true));
+            chk!(forms(|| &a + &b, || a.clone() + &b, bits_v, HV, true));
+            chk!(forms(|| &a - &b, || a.clone() - &b, bits_v, HV, true));
+            chk!(forms(|| { let mut x = a.clone(); x += b.clone(); x }, || &a + &b, bits_v, HV, false));
+            chk!(forms(|| { let mut x = a.clone(); x -= b.clone(); x }, || &a - &b, bits_v, HV, false));
             for s in scalars {
-                if bits_v(&(s * a.clone())) != bits_v(&(a.clone() * s)) { return 4; }
-                let mut x = a.clone(); x *= s; if bits_v(&x) != bits_v(&(a.clone() * s)) { return 4; }
-                let mut x = a.clone(); x /= s; if bits_v(&x) != bits_v(&(a.clone() / s)) { return 4; }
+                chk!(forms(|| s * a.clone(), || a.clone() * s, bits_v, HV, false));
+                chk!(forms(|| { let mut x = a.clone(); x *= s; x }, || a.clone() * s, bits_v, HV, false));
+                chk!(forms(|| { let mut x = a.clone(); x /= s; x }, || a.clone() / s, bits_v, HV, false));
             }
             if bits_v(&a) != sa || bits_v(&b) != sb { return 3; } 0 }
         _ => panic!("harness: unknown own2 type {}", ty),
@@ -514,30 +550,37 @@ fn clone2_check(ty: &str, n: usize) -> i128 {
     }
 }
 
-// the SAME object on both sides of a by-reference operator: the outcome (bits of the result, or a panic) must be that of the same call
-// with an equal but distinct second operand
-fn same<R>(f1: impl FnOnce() -> R, f2: impl FnOnce() -> R, bits: impl Fn(&R) -> Vec<u64>) -> bool {
-    let r1 = catch_unwind(AssertUnwindSafe(f1)); let r2 = catch_unwind(AssertUnwindSafe(f2));
-    match (r1, r2) { (Ok(x), Ok(y)) => bits(&x) == bits(&y), (Err(_), Err(_)) => true, _ => false }
-}
+// the SAME object on both sides of a by-reference operator: the outcome class (value or panic) must be that of the same call with an
+// equal but distinct second operand (code 9 otherwise); the value must be bit-identical on the dyadic / integer builders, where every sum
+// and product is exact (code 4), and within rounding on the inexact builders (code 8: a symmetric path may round differently)
 fn self_check(ty: &str, n: usize) -> i128 {
     match ty {
-        "vector" => { let a = vecx(n, 0); let b = a.clone(); let sa = bits_v(&a);
-            if !same(|| &a + &a, || &a + &b, bits_v) || !same(|| &a - &a, || &a - &b, bits_v) { return 4; }
-            if !same(|| a.dot(&a), || a.dot(&b), |x| vec![x.to_bits()]) || !same(|| a.dot_f64(&a), || a.dot_f64(&b), |x| vec![x.to_bits()]) { return 4; }
-            if bits_v(&a) != sa { return 3; } 0 }
-        "matrix" => { for (r, c) in [(n, n), (n, n + 1), (n + 1, n)] { let a = matx(r, c, 0); let b = a.clone(); let sa = bits_m(&a);
-                if !same(|| &a + &a, || &a + &b, bits_m) || !same(|| &a - &a, || &a - &b, bits_m) || !same(|| &a * &a, || &a * &b, bits_m) { return 4; }
-                let mut x = a.clone(); let mut y = a.clone();
-                if !same(|| { x += &a; bits_m(&x) }, || { y += &b; bits_m(&y) }, |v| v.clone()) { return 4; }
-                if bits_m(&a) != sa { return 3; } }
+        "vector" => { for exact in [true, false] { let a = if exact { vecn(n) } else { vecx(n, 0) }; let b = a.clone(); let sa = bits_v(&a);
+                chk!(forms(|| &a + &a, || &a + &b, bits_v, HV, exact));
+                chk!(forms(|| &a - &a, || &a - &b, bits_v, HV, exact));
+                chk!(forms(|| a.dot(&a), || a.dot(&b), |x| vec![x.to_bits()], 0, exact));
+                chk!(forms(|| a.dot_f64(&a), || a.dot_f64(&b), |x| vec![x.to_bits()], 0, exact));
+                if bits_v(&a) != sa || bits_v(&b) != sa { return 3; } }
             0 }
-        "banded" => { let a = bandx(n + 1, 1.min(n), 2.min(n), 0); let b = a.clone(); let sa = bits_b(&a);
-            if !same(|| &a + &a, || &a + &b, bits_b) || !same(|| &a - &a, || &a - &b, bits_b) { return 4; }
-            if bits_b(&a) != sa { return 3; } 0 }
-        "polynomial" => { let p = polyx(n + 1, 0); let q = p.clone(); let sp = bits_p(&p);
-            if !same(|| &p + &p, || &p + &q, bits_p) || !same(|| &p - &p, || &p - &q, bits_p) || !same(|| &p * &p, || &p * &q, bits_p) { return 4; }
-            if bits_p(&p) != sp { return 3; } 0 }
+        "matrix" => { for exact in [true, false] { for (r, c) in [(n, n), (n, n + 1), (n + 1, n)] {
+                let a = if exact { matn(r, c) } else { matx(r, c, 0) }; let b = a.clone(); let sa = bits_m(&a);
+                chk!(forms(|| &a + &a, || &a + &b, bits_m, HM, exact));
+                chk!(forms(|| &a - &a, || &a - &b, bits_m, HM, exact));
+                chk!(forms(|| &a * &a, || &a * &b, bits_m, HM, exact));
+                chk!(forms(|| { let mut x = a.clone(); x += &a; x }, || { let mut y = a.clone(); y += &b; y }, bits_m, HM, exact));
+                if bits_m(&a) != sa || bits_m(&b) != sa { return 3; } } }
+            0 }
+        "banded" => { for exact in [true, false] { let a = if exact { bandn(n + 1, 1.min(n), 2.min(n)) } else { bandx(n + 1, 1.min(n), 2.min(n), 0) }; let b = a.clone(); let sa = bits_b(&a);
+                chk!(forms(|| &a + &a, || &a + &b, bits_b, HB, exact));
+                chk!(forms(|| &a - &a, || &a - &b, bits_b, HB, exact));
+                if bits_b(&a) != sa || bits_b(&b) != sa { return 3; } }
+            0 }
+        "polynomial" => { for exact in [true, false] { let p = if exact { polyn(n + 1) } else { polyx(n + 1, 0) }; let q = p.clone(); let sp = bits_p(&p);
+                chk!(forms(|| &p + &p, || &p + &q, bits_p, HP, exact));
+                chk!(forms(|| &p - &p, || &p - &q, bits_p, HP, exact));
+                chk!(forms(|| &p * &p, || &p * &q, bits_p, HP, exact));
+                if bits_p(&p) != sp || bits_p(&q) != sp { return 3; } }
+            0 }
         _ => panic!("harness: unknown self type {}", ty),
     }
 }
